@@ -45,7 +45,7 @@ impl BytesSerializable for DeleteTopic {
     }
 
     fn from_bytes(bytes: Bytes) -> std::result::Result<DeleteTopic, IggyError> {
-        if bytes.len() < 10 {
+        if bytes.len() < 6 {
             return Err(IggyError::InvalidCommand);
         }
 
